@@ -83,3 +83,12 @@ Example C17_example :
   = [ODone; ODone; ODone; OList [(1, Some 200); (2, None)]; ODup; OList [(1, Some 200)];
      OList [(2, None)]; ODone; ODone; OList [(2, Some 201)]; ODone; OList []]%N.
 Proof. vm_compute. reflexivity. Qed.
+
+(* The heap/ring transcription of har.Logger (RecordRequest, RecordResponse,
+   Export, ExportAndReset, Reset, statement by statement) never panics and
+   returns exactly the abstract log's outputs, for every history. *)
+From Martian.C17 Require Import Proofs_Refine.
+Theorem C17_ring_implementation_refines_abstract_log : forall ops,
+  impl_outputs ops = Some (spec_outputs ops).
+Proof. exact impl_refines_spec. Qed.
+Print Assumptions C17_ring_implementation_refines_abstract_log.
